@@ -119,8 +119,19 @@ def main():
         elif r['verdict'] == 'vacuous':
             harness_errors.append((c.name, 'vacuous: tree exhausted without a confirmed leaf (assumptions unsatisfiable?)'))
 
+    # one line per LISTED finding (an entry with 'sig_re' covers the option variants of one finding)
+    import re as _re
+    from .h import load_known
+    entries = [k for k in load_known() if k.get('status') == 'known' and k.get('property') == prop]
+    grouped = {}
     for sig, (cname, kh) in sorted(known_lines.items()):
-        print(f'KNOWN-FINDING: property={prop} cell={cname} sig={sig} hits={kh["n"]}')
+        ent = next((k for k in entries if k.get('sig') == sig or ('sig_re' in k and _re.fullmatch(k['sig_re'], sig))), None)
+        key = (ent.get('sig') or 're:' + ent['sig_re']) if ent else sig
+        g = grouped.setdefault(key, dict(cell=cname, first=sig, n=0, variants=0))
+        g['n'] += kh['n']
+        g['variants'] += 1
+    for key, g in sorted(grouped.items()):
+        print(f'KNOWN-FINDING: property={prop} cell={g["cell"]} sig={key} hits={g["n"]}' + (f' (first of {g["variants"]} variants: {g["first"]})' if g['variants'] > 1 else ''))
     for cname, path, cex in violations:
         print(f'  counterexample cell={cname} args={json.dumps(cex["args"])[:600]} sig={cex["sig"]}\n  detail={str(cex["detail"])[:1200]}')
         print(f'VIOLATION property={prop} replay={path}')
